@@ -157,6 +157,77 @@ Theorem C09_catch_up_full : forall (c : cfg) (pre rest : list hinfo) (cur : N) (
 Proof. exact catch_up_thm. Qed.
 Print Assumptions C09_catch_up_full.
 
+(* ==== the payload of signed data (Model/Retriever.v: sdpost, decode_sd, classify_sd, phandle) =============
+   [pda] = the DA described by what was POSTED: per height the posts (headers, junk, and SignedData blobs with
+   their transaction list as it stands on the wire — any length, any mix of zero-length, one-byte, repeated and
+   large transactions, in any position —, Metadata present or not, signer right or wrong, the tx list the
+   signature covers) and the outcome script.  The class-level DA of the theorems above is [da_of DCopyAll pda]:
+   the class of a SignedData blob is COMPUTED from the post by the model of the decoder + handlePotentialData +
+   isValidSignedData. *)
+
+(* the tx codec as it is: encoding then decoding gives back every transaction list unchanged *)
+Theorem C09_tx_codec_roundtrip_full : forall l : list tx, slices_to_txs DCopyAll (txs_to_slices l) = l.
+Proof. exact codec_roundtrip. Qed.
+Print Assumptions C09_tx_codec_roundtrip_full.
+
+(* every genuine data blob — signed by the proposer over exactly the transactions it carries, at least one
+   transaction of ANY length, Metadata present — is admitted as data and decodes to the transactions posted *)
+Theorem C09_genuine_data_admitted_full : forall sp : sdpost, genuineb sp = true ->
+  classify_sd DCopyAll sp = BData (sp_id sp) /\ decode_sd DCopyAll sp = sp_wire sp.
+Proof. exact genuine_admitted_thm. Qed.
+Print Assumptions C09_genuine_data_admitted_full.
+
+(* the handler with payload refines the class-level handler of the theorems above (whatever the decoder) *)
+Theorem C09_payload_refines_full : forall (m : txdecode) (c : cfg) (daH : N) (posts : list post),
+  map erase (phandle m c daH posts) = genuine_events c daH (map (classify m) posts).
+Proof. exact phandle_erase. Qed.
+Print Assumptions C09_payload_refines_full.
+
+(* Every iteration of every run hands over what was posted (handed_ok): its events are the payload-erased
+   image of what handlePotentialHeader/Data hand over, and that is — on a successful fetch — exactly the
+   genuine unseen headers and genuine unseen data blobs of its height in DA order, every data event carrying
+   the transaction list exactly as posted; nothing otherwise. *)
+Theorem C09_hands_over_posted_txs_full : forall (c : cfg) (pda : list hpost) (h : list item),
+  Forall (handed_ok c pda) (iterations c (da_of DCopyAll pda) h).
+Proof. exact hands_over_thm. Qed.
+Print Assumptions C09_hands_over_posted_txs_full.
+
+(* No height is skipped, with payload: every height below the final cursor was passed by a loop iteration that
+   handed over exactly the posted events of that height. *)
+Theorem C09_no_skip_payload_full : forall (c : cfg) (pda : list hpost) (h : list item) (n : N),
+  boot c <= n < s_cursor (final c (da_of DCopyAll pda) h) ->
+  exists r, In r (iterations c (da_of DCopyAll pda) h) /\ i_height r = n /\ i_next r = n + 1 /\
+            i_loop r = true /\ i_result r = PNil /\
+            (last (i_classes r) AError = ASuccess \/ last (i_classes r) AError = ANotFound) /\
+            map erase (handed DCopyAll c pda r) = i_events r /\
+            handed DCopyAll c pda r = (if succeeded (i_classes r) then posted_events c n (pcontent c pda n) else []).
+Proof. exact payload_no_skip_thm. Qed.
+Print Assumptions C09_no_skip_payload_full.
+
+(* a genuine unseen data blob among the posts of a height is among that height's posted events, with the
+   transaction list it was posted with *)
+Theorem C09_posted_data_is_due_full : forall (c : cfg) (daH : N) (posts : list post) (sp : sdpost),
+  In (PSigned sp) posts -> genuineb sp = true -> mem (sp_id sp) (c_seen_d c) = false ->
+  In (PEData (sp_id sp) daH (sp_wire sp)) (posted_events c daH posts).
+Proof. exact posted_events_in. Qed.
+Print Assumptions C09_posted_data_is_due_full.
+
+(* the same for every interleaving of the two-channel loop *)
+Theorem C09_ticks_hands_over_posted_txs_full : forall (c : cfg) (pda : list hpost) (tick : bool) (ts : list turn),
+  Forall (handed_ok c pda) (literations RNonBlocking c (linit c (da_of DCopyAll pda) tick) ts).
+Proof. exact ticks_hands_over_thm. Qed.
+Print Assumptions C09_ticks_hands_over_posted_txs_full.
+
+Theorem C09_ticks_no_skip_payload_full : forall (c : cfg) (pda : list hpost) (tick : bool) (ts : list turn) (n : N),
+  boot c <= n < s_cursor (l_scan (fst (lrun RNonBlocking c (linit c (da_of DCopyAll pda) tick) ts))) ->
+  exists r, In r (literations RNonBlocking c (linit c (da_of DCopyAll pda) tick) ts) /\ i_height r = n /\ i_next r = n + 1 /\
+            i_loop r = true /\ i_result r = PNil /\
+            (last (i_classes r) AError = ASuccess \/ last (i_classes r) AError = ANotFound) /\
+            map erase (handed DCopyAll c pda r) = i_events r /\
+            handed DCopyAll c pda r = (if succeeded (i_classes r) then posted_events c n (pcontent c pda n) else []).
+Proof. exact ticks_payload_no_skip_thm. Qed.
+Print Assumptions C09_ticks_no_skip_payload_full.
+
 (* ---- non-vacuity -------------------------------------------------------------------------------------- *)
 Definition many (n : nat) : list blob := map (fun i => BJunk (N.of_nat i)) (seq 0 n).
 
@@ -222,4 +293,41 @@ Proof. vm_compute. reflexivity. Qed.
 Example ex_blocking_rearm_would_stall :
   let '(ls, rr) := lrun RBlocking cu_cfg (linit cu_cfg cu_da true) cu_turns in
   (l_stuck ls, map (fun r => i_height r) (concat rr)) = (true, [100; 101]).
+Proof. vm_compute. reflexivity. Qed.
+
+(* ---- the payload of signed data: boundary transactions ------------------------------------------------- *)
+(* a genuine data blob: proposer's signature over exactly the transactions on the wire, Metadata present *)
+Definition gen_sd (id : N) (txs : list tx) : post :=
+  PSigned {| sp_id := id; sp_wire := txs; sp_meta := true; sp_signer := true; sp_sigfor := Some txs |}.
+(* height 7: a header, then genuine data with a zero-length transaction in the middle / only a zero-length
+   transaction / first and last zero-length / a repeated transaction, then a blob signed over other
+   transactions than it carries, one from a wrong signer, and one without any transaction *)
+Definition pl_da : list hpost :=
+  [ {| hp_posts := [PHeader 1; gen_sd 2 [3; 0; 4]; gen_sd 3 [0]; gen_sd 4 [0; 5; 0]; gen_sd 5 [7; 7];
+                    PSigned {| sp_id := 6; sp_wire := [3; 4]; sp_meta := true; sp_signer := true; sp_sigfor := Some [3; 0; 4] |};
+                    PSigned {| sp_id := 8; sp_wire := [9]; sp_meta := true; sp_signer := false; sp_sigfor := Some [9] |};
+                    gen_sd 9 [] ];
+       hp_outs := [OOk] |} ].
+
+Example ex_boundary_txs_handed_over :
+  map (fun r => (i_height r, i_result r, handed DCopyAll wit_cfg pl_da r, i_next r))
+      (iterations wit_cfg (da_of DCopyAll pl_da) [ISignal]) =
+  [ (7, PNil, [PEHeader 1 7; PEData 2 7 [3; 0; 4]; PEData 3 7 [0]; PEData 4 7 [0; 5; 0]; PEData 5 7 [7; 7]], 8);
+    (8, PFuture, [], 8) ].
+Proof. vm_compute. reflexivity. Qed.
+
+Example ex_boundary_txs_genuine :
+  map (fun p => match p with PSigned sp => genuineb sp | _ => false end) (hp_posts (hd {| hp_posts := []; hp_outs := [] |} pl_da)) =
+  [false; true; true; true; true; false; false; false].
+Proof. vm_compute. reflexivity. Qed.
+
+(* NOT the code: were zero-length entries left out when decoding, the re-marshalled data of blobs 2 and 4 would
+   differ from what the proposer signed (dropped as badly signed), blob 3 would decode to no transactions
+   (dropped as empty) — three genuine blobs of an examined height never handed to sync, the cursor moves on.
+   The premise DCopyAll of the theorems above is what the correspondence check compares with the real decoder. *)
+Example ex_skipping_empty_txs_would_drop_genuine_data :
+  map (fun r => (i_height r, i_result r, i_events r, handed DSkipEmpty wit_cfg pl_da r, i_next r))
+      (iterations wit_cfg (da_of DSkipEmpty pl_da) [ISignal]) =
+  [ (7, PNil, [EHeader 1 7; EData 5 7], [PEHeader 1 7; PEData 5 7 [7; 7]], 8);
+    (8, PFuture, [], [], 8) ].
 Proof. vm_compute. reflexivity. Qed.
